@@ -7,6 +7,7 @@ from harness import core, gen, common
 
 ID = 'C18'
 LEAN_TARGETS = ['Props.C18']
+TIE_A = ['misc_mvarray_folds_eq', 'misc_blademap_eq', 'misc_frame_eq']
 OBLIGATIONS = [
     'C18.blademap_additive', 'C18.blademap_homogeneous', 'C18.blademap_listed', 'C18.blademap_twice', 'C18.mvarray_fold',
     'C18.innermorphic_symmetric', 'C18.frame_volume_element', 'C18.reciprocal_frame', 'C18.inner_scalar_is_contraction_scalar',
